@@ -10,7 +10,10 @@ core.rs string_to_num / compiler.rs number (parse the text unchanged) -> gen/Num
 (a) printing  impl == M (print_f64) and impl == S (to_num / literal of the printed text gives back the bits);
 (b) parsing   impl == M (parse_f64) and impl == S (exact rational nearest-double oracle) on short decimals,
     long digit strings, exact midpoints between adjacent doubles (derived from the model) +- 1 unit, malformed;
-(c) lexing    programs `print(<d1><continuation>);` impl == S (split known by construction) and M == S."""
+(c) lexing    programs `print(<d1><continuation>);` impl == S (split known by construction) and M == S;
+(d) routes    every statement that turns a number into text (print, interpolation alone / inside text / several parts,
+    String.from, concatenation, vec / tuple / map / nested display, thrown value, error message) fed with the literal TEXT
+    (non-canonical spellings) and with a variable holding the same double: all must print the canonical text."""
 import json
 import os
 import re
@@ -543,6 +546,162 @@ def check_lex(ctx, cases, tag):
 
 
 # ------------------------------------------------------------------------------------------
+# (d) every route that turns a number into text, fed with the literal TEXT and with a variable
+
+ROUTES = [  # (source with @E = the expression, expected line with @T = canonical text, which values)
+    ('print(@E);', '@T', 'all'),
+    ('print("${@E}");', '@T', 'all'),
+    ('print("a${@E}b");', 'a@Tb', 'all'),
+    ('print("${@E}|${@E}, ${x}");', '@T|@T, @T', 'all'),
+    ('print(String.from(@E));', '@T', 'all'),
+    ('print("" + String.from(@E) + "");', '@T', 'all'),
+    ('print("${String.from(@E)}");', '@T', 'all'),
+    ('print([@E]);', '[@T]', 'all'),
+    ('print((@E,));', '(@T,)', 'all'),
+    ('print([@E, (@E, x)]);', '[@T, (@T, @T)]', 'all'),
+    ('print("${[@E]}");', '[@T]', 'all'),
+    ('print(String.from((@E,)));', '(@T,)', 'all'),
+    ('try { throw @E; } catch e { print(e); }', '@T', 'all'),
+    ('print({@E: @E});', '{@T: @T}', 'finite'),
+    ('try { [0][@E]; } catch e { print(e.context); }', "Expected an integer value but found '@T'.", 'fraction'),
+    ('print(@E == x);', 'true', 'number'),
+]
+
+
+def routes_program(expr, kind):
+    """(source, expected line templates) for one expression; kind in {'finite+fraction', ...} as a set"""
+    src, exp = [], []
+    for r, e, cond in ROUTES:
+        if cond == 'all' or cond in kind:
+            src.append(r.replace('@E', expr))
+            exp.append(e)
+    return src, exp
+
+
+def py_canon(x):
+    """positional shortest text of a finite Python float (used only to BUILD non-canonical spellings)"""
+    from decimal import Decimal
+    t = format(Decimal(repr(abs(x))), 'f')
+    if '.' in t:
+        t = t.rstrip('0').rstrip('.')
+    return t or '0'
+
+
+def gen_literals(rng, n):
+    """unsigned literal texts whose spelling is mostly NOT the canonical print of the double they denote, with a sign flag"""
+    from decimal import Decimal
+    fixed = ["1.0", "007", "2.50", "100.000", "9007199254740993", "0.1000000000000000055511151231257827", "0.10", "00.5", "0.0",
+             "0.000", "000", "1.50", "18014398509481985", "123456789012345678901234567890", "0.30000000000000004", "0.3000000000000000444",
+             "4.9406564584124654e-324".replace("e-324", "")[:0] + "0." + "0" * 323 + "49406564584124654", "0." + "0" * 330 + "1",
+             "1" + "0" * 22 + ".0", "9" * 400, "179769313486231570" + "0" * 291 + ".50"]
+    res = [(t, False) for t in fixed]
+    while len(res) < n:
+        style = rng.random()
+        if style < 0.25:
+            x = float(rng.randint(0, 10 ** rng.randint(1, 15)))
+        elif style < 0.5:
+            x = rng.randint(0, 10 ** rng.randint(1, 12)) / float(10 ** rng.randint(1, 8))
+        elif style < 0.7:
+            x = struct.unpack("<d", struct.pack("<Q", (rng.randint(1023 - 30, 1023 + 80) << 52) | rng.getrandbits(52)))[0]
+        elif style < 0.8:
+            x = float(2 ** rng.randint(52, 70) + rng.randint(0, 5))
+        elif style < 0.9:
+            x = struct.unpack("<d", struct.pack("<Q", (rng.randint(1, 2046) << 52) | rng.getrandbits(52)))[0]
+        else:
+            x = struct.unpack("<d", struct.pack("<Q", rng.getrandbits(rng.randint(1, 52))))[0]
+        t0 = py_canon(x)
+        v = rng.random()
+        if v < 0.2:
+            t = t0 + (".0" if "." not in t0 else "0") + "0" * rng.randint(0, 3)
+        elif v < 0.35:
+            t = "0" * rng.randint(1, 3) + t0
+        elif v < 0.6:       # exact binary expansion, possibly cut or extended
+            t = format(Decimal(x), 'f')
+            if len(t) > 60 and rng.random() < 0.8:
+                t = t[:rng.randint(25, 60)] if "." in t[:25] else t
+            if "." in t and rng.random() < 0.5:
+                t += rng.choice(["1", "9", "000", "5"])
+        elif v < 0.75:      # integers that are not representable / too many digits
+            t = str(2 ** rng.randint(53, 64) + 2 * rng.randint(0, 10 ** 6) + 1) if rng.random() < 0.5 else \
+                str(rng.randint(10 ** 17, 10 ** rng.randint(18, 30)))
+        elif v < 0.9:
+            t = long_decimal(rng)
+        else:
+            t = t0
+        if len(t) > 1200 or not LIT_RE.fullmatch(t):
+            continue
+        res.append((t, rng.random() < 0.3))
+    return res[:max(n, len(fixed))]
+
+
+def check_routes(ctx, lits, rbits, tag):
+    """lits: [(unsigned literal text, negative?)]; rbits: bit patterns fed through the variable only"""
+    binary = ctx.harness("debug")
+    items, meta = [], []
+    for t, neg in lits:
+        try:
+            v = float(t)
+        except (ValueError, OverflowError):
+            v = float("inf")
+        b = f2b(-v if neg else v)
+        fin = (b & ~SIGN & MASK) < INF
+        kind = {"number"} | ({"finite"} if fin else set()) | ({"fraction"} if fin and mag_value(b & ~SIGN & MASK).denominator != 1 else set())
+        expr = ("-" if neg else "") + t
+        s1, e1 = routes_program(expr, kind)
+        s2, e2 = routes_program("x", kind)
+        items.append((b, "\n".join(s1 + s2)))
+        meta.append({"lit": expr, "bits": b, "exp": e1 + e2, "src": s1 + s2})
+    for b in rbits:
+        nan = is_nan_bits(b)
+        fin = not nan and (b & ~SIGN & MASK) < INF
+        kind = (set() if nan else {"number"}) | ({"finite"} if fin else set()) | \
+            ({"fraction"} if fin and mag_value(b & ~SIGN & MASK).denominator != 1 else set())
+        s2, e2 = routes_program("x", kind)
+        items.append((b, "\n".join(s2)))
+        meta.append({"lit": None, "bits": b, "exp": e2, "src": s2})
+    utexts = list(dict.fromkeys(t for t, _ in lits))
+    sn, canon = both(lambda: run_snips(binary, items, batch=40),
+                     lambda: coq_lists("run_canon_w", [wire_text(t) for t in utexts], 10, "C19canon" + tag))
+    cmap = dict(zip(utexts, canon))
+    nontriv = set()
+    nlines = 0
+    for mt, s in zip(meta, sn):
+        T = s["D"]
+        what = None
+        if s["R"] != "ok" or T is None or len(s["O"]) != len(mt["exp"]):
+            what, bad = "a program printing one number through every route failed", (s["R"], s["M"][:2], len(s["O"]), len(mt["exp"]))
+        else:
+            nlines += len(s["O"])
+            for src, e, got in zip(mt["src"], mt["exp"], s["O"]):
+                want = e.replace("@T", T)
+                if got != want:
+                    what, bad = "a route that turns a number into text does not give the canonical text of the double", \
+                        {"statement": src, "expected": want, "actual": got}
+                    break
+        if what:
+            ctx.violation(what, kind="routes", lits=[hx(mt["lit"])] if mt["lit"] else [], rbits=[] if mt["lit"] else [mt["bits"]],
+                          input="x = f64::from_bits(%d); %s" % (mt["bits"], (bad.get("statement") if isinstance(bad, dict) else "\n".join(mt["src"]))[:600]),
+                          expected=(bad.get("expected") if isinstance(bad, dict) else "ok")[:300] if isinstance(bad, dict) else "ok",
+                          actual=(bad.get("actual")[:300] if isinstance(bad, dict) else str(bad)))
+            continue
+        if mt["lit"]:
+            ut = mt["lit"].lstrip("-")
+            m = cmap.get(ut)
+            if m is None or m == "E":
+                ctx.corr_broken.append("model: literal %r does not parse (run_canon_w: %s)" % (ut[:60], m))
+            else:
+                mb, mtxt = m.split("|")
+                neg = mt["lit"].startswith("-")
+                if mb != "N" and (int(mb) | (SIGN if neg else 0)) != mt["bits"]:
+                    ctx.broken.append("model parse_f64 and Python float() disagree on %r: %s vs %d" % (ut[:60], mb, mt["bits"]))
+                elif ("-" if neg else "") + mtxt != T:
+                    ctx.corr_broken.append("impl != M (print_f64 of the literal) for %r: impl %r model %r" % (mt["lit"][:60], T[:60], mtxt[:60]))
+            if ut != T.lstrip("-"):
+                nontriv.add(mt["lit"])
+    return nlines, nontriv
+
+
+# ------------------------------------------------------------------------------------------
 
 
 def src_structure(ctx):
@@ -552,7 +711,7 @@ def src_structure(ctx):
             man = json.load(fh)
     except Exception:
         return {}
-    d = {k: man.get(k) for k in ("c19_display_number", "c19_scanner_number", "c19_parse_sites")}
+    d = {k: man.get(k) for k in ("c19_display_number", "c19_scanner_number", "c19_parse_sites", "c19_text_routes")}
     flags = []
     for k, v in d.items():
         for kk, vv in (v or {}).items():
@@ -563,6 +722,19 @@ def src_structure(ctx):
         ctx.notes.append("translator: source structure no longer recognised: " + ", ".join(bad) +
                          " (props/C19.v side conditions C19_src_* fail; the model's parameters no longer describe the code)")
     return d
+
+
+def corpus_lits():
+    res = []
+    cdir = os.path.join(yvlib.VERIF, "corpus", "C19")
+    if os.path.isdir(cdir):
+        for f in sorted(os.listdir(cdir)):
+            with open(os.path.join(cdir, f)) as fh:
+                j = json.load(fh)
+            for t in j.get("lits", []):
+                t = yvlib.unhx(t).decode()
+                res.append((t.lstrip("-"), t.startswith("-")))
+    return res
 
 
 def load_corpus():
@@ -583,6 +755,7 @@ SIZES = {  # random patterns, short decimals sampled (None = all), long decimals
     "search": (5200, 5000, 1200, 600, 1200),
     "thorough": (20000, None, 6000, 3000, 6000),
 }
+ROUTE_SIZES = {"quick": (260, 120), "search": (800, 300), "thorough": (3000, 1200)}   # literal texts, variable-only bit patterns
 
 
 def run_sized(ctx, size):
@@ -607,8 +780,17 @@ def run_sized(ctx, size):
     cases = cp + [gen_lex_case(rng) for _ in range(n_lex)]
     n_c, nt_c = check_lex(ctx, cases, size)
     t4 = time.time()
-    log("[C19] %s: print %.1fs, midpoints %.1fs, parse %.1fs, lex %.1fs" % (size, t1 - t0, t2 - t1, t3 - t2, t4 - t3))
-    ctx.cov["phase_seconds"] = {"print": round(t1 - t0, 1), "midpoints": round(t2 - t1, 1), "parse": round(t3 - t2, 1), "lex": round(t4 - t3, 1)}
+    # (d)
+    n_lit, n_rb = ROUTE_SIZES[size]
+    lits = corpus_lits() + gen_literals(rng, n_lit)
+    bb = boundary_bits()
+    rbits = list(dict.fromkeys([0, SIGN, 1, INF, INF | SIGN, QNAN, QNAN | SIGN | 1, INF - 1, f2b(0.1), f2b(2.0 ** 53), f2b(-1.5)] +
+                               rng.sample(bb, min(n_rb // 2, len(bb))) + random_bits(rng, n_rb // 2)))
+    n_d, nt_d = check_routes(ctx, lits, rbits, size)
+    t5 = time.time()
+    log("[C19] %s: print %.1fs, midpoints %.1fs, parse %.1fs, lex %.1fs, routes %.1fs" % (size, t1 - t0, t2 - t1, t3 - t2, t4 - t3, t5 - t4))
+    ctx.cov["phase_seconds"] = {"print": round(t1 - t0, 1), "midpoints": round(t2 - t1, 1), "parse": round(t3 - t2, 1),
+                                "lex": round(t4 - t3, 1), "routes": round(t5 - t4, 1)}
     # thorough only: the fast digit search of print_f64 against the slow reference search (model-internal)
     n_ref = 0
     if size == "thorough":
@@ -629,21 +811,25 @@ def run_sized(ctx, size):
     ctx.broken[:] = ctx.broken[:12]
     ex = lambda s, k: [x for x in list(s)[:k]]
     ctx.cov.update({
-        "evaluations": n_a + n_b + n_c,
-        "distinct_nontrivial": len(nt_a) + len(nt_b) + len(nt_c),
+        "evaluations": n_a + n_b + n_c + n_d,
+        "distinct_nontrivial": len(nt_a) + len(nt_b) + len(nt_c) + len(nt_d),
         "rule": "printing: distinct finite bit patterns whose printed text has >= 2 significant digits (%d of %d patterns); "
                 "parsing: distinct decimal texts whose value is NOT exactly representable, i.e. the conversion has to round (%d of %d texts); "
-                "lexing: distinct programs whose number is followed by a '.' continuation (%d of %d)" % (
-                    len(nt_a), len(bits), len(nt_b), len(set(ct + MALFORMED + sd + longs + mids)), len(nt_c), len(cases)),
+                "lexing: distinct programs whose number is followed by a '.' continuation (%d of %d); "
+                "routes: distinct literal texts whose spelling is NOT the canonical print of the double they denote, each fed to %d "
+                "number->text statements as literal and as variable (%d of %d literals; %d printed lines compared)" % (
+                    len(nt_a), len(bits), len(nt_b), len(set(ct + MALFORMED + sd + longs + mids)), len(nt_c), len(cases),
+                    len(ROUTES), len(nt_d), len(lits), n_d),
         "input_distribution": {
             "bit_patterns": {"boundaries": len(boundary_bits()), "random": n_bits,
                              "mix": "55% uniform 64-bit, 20% exponents 2^-40..2^70, 10% few significant bits, 8% k/10^j, 7% subnormals"},
             "parse_texts": {"short_decimals(<=4 digits around the point)": len(sd), "of_all": 43210, "long(5..40 digits)": len(longs),
                             "midpoint_family(tie, +-1 unit in the next place)": len(mids), "malformed_and_special": len(MALFORMED)},
             "lex_programs": len(cases),
+            "route_literals": len(lits), "route_variable_only_patterns": len(rbits), "route_statements": [r[0] for r in ROUTES],
         },
-        "samples": [{"bits": b, "text": t[:60]} for b, t in printed[-3:]] + ex(nt_b, 3) + [c["prog"] for c in cases[-3:]],
-        "print_cases": n_a, "parse_cases": n_b, "lex_cases": n_c, "reference_search_cases": n_ref,
+        "samples": [{"bits": b, "text": t[:60]} for b, t in printed[-3:]] + ex(nt_b, 3) + [c["prog"] for c in cases[-3:]] + [x[:60] for x in ex(nt_d, 3)],
+        "print_cases": n_a, "parse_cases": n_b, "lex_cases": n_c, "route_lines": n_d, "reference_search_cases": n_ref,
         "source_structure": src_structure(ctx),
     })
 
@@ -657,6 +843,9 @@ def run(ctx):
             check_parse(ctx, [yvlib.unhx(t).decode() for t in rp["texts"]], "replay")
         if rp.get("progs"):
             check_lex(ctx, rp["progs"], "replay")
+        if rp.get("lits") or rp.get("rbits"):
+            ls = [yvlib.unhx(t).decode() for t in rp.get("lits", [])]
+            check_routes(ctx, [(t.lstrip("-"), t.startswith("-")) for t in ls], [int(b) for b in rp.get("rbits", [])], "replay")
         ctx.cov.update({"evaluations": 1, "distinct_nontrivial": 0, "rule": "replay of one recorded input", "samples": [rp.get("input")]})
         return
     run_sized(ctx, "quick" if ctx.quick() else "thorough")
